@@ -5,29 +5,31 @@ Open Scope N_scope.
 (* Correspondence cases for C09.
    CGen: one call of generateRandomizedSpec on the real code: variant, the 17 weights as
      float64 bit patterns (struct order, u_common.go:671), serverName, NextProtos, the
-     prefix of SHAKE256(seed) as big-endian 64-bit words, the first word of the salted
-     ("ALPS") stream, and the spec (or error) the code returned.
+     prefix of SHAKE256(seed) as bytes, the first 8 bytes of the salted ("ALPS") stream,
+     and the spec (or error) the code returned. (Bytes, not 64-bit literals: Coq parses
+     small numerals far faster than 20-digit ones.)
    CTable: the code's cipherSuites rows and defaultCipherSuitesTLS13 (drift of the snapshot
      Randomized.utls_table).
    CConsts: the Go constants, in the order of [model_consts].
    CRemove / CRC4 / CShuffled: the helpers called directly. *)
 Inductive case :=
-| CGen (v : variant) (wbits : list N) (server : bytes) (protos : list bytes) (words salted : list N) (r : res spec)
+| CGen (v : variant) (wbytes : bytes) (server : bytes) (protos : list bytes) (s salted : bytes) (r : res spec)
 | CTable (rows : list (N * bool)) (tls13 : list N)
 | CConsts (vals : list N)
-| CRemove (words : list N) (s : list N) (wbits : N) (out : list N)
+| CRemove (st : bytes) (s : list N) (wbytes : bytes) (out : list N)
 | CRC4 (s out : list N)
-| CShuffled (words : list N) (out : list N).
+| CShuffled (st : bytes) (out : list N).
 
 Definition fuel := 16%nat.
 
-Definition word_bytes (w : N) : list N :=
-  [N.shiftr w 56 mod 256; N.shiftr w 48 mod 256; N.shiftr w 40 mod 256; N.shiftr w 32 mod 256;
-   N.shiftr w 24 mod 256; N.shiftr w 16 mod 256; N.shiftr w 8 mod 256; w mod 256].
-Definition expand (ws : list N) : stream := flat_map word_bytes ws.
-
-Definition weights_of (l : list N) : option weights :=
-  match map fw_of_bits l with
+(* 8 big-endian bytes per float64 bit pattern *)
+Fixpoint words_of (n : nat) (b : bytes) : list N :=
+  match n with
+  | O => []
+  | S k => match uint64 b with Some (w, r) => w :: words_of k r | None => [] end
+  end.
+Definition weights_of (l : bytes) : option weights :=
+  match map fw_of_bits (words_of 17 l) with
   | [a; b; c; d; e; f; g; h; i; j; k; l0; m; n; o; p; q] => Some (Build_weights a b c d e f g h i j k l0 m n o p q)
   | _ => None
   end.
@@ -61,9 +63,9 @@ Definition run_ok {A} (m : M A) (s : stream) : option A :=
 
 Definition check (c : case) : bool :=
   match c with
-  | CGen v wb server protos words salted r =>
+  | CGen v wb server protos s salted r =>
       match weights_of wb with
-      | Some w => res_eqb (generate rne fuel utls_table v w server protos (expand words) (expand salted)) r
+      | Some w => res_eqb (generate rne fuel utls_table v w server protos s salted) r
       | None => false
       end
   | CTable rows tls13 =>
@@ -71,14 +73,14 @@ Definition check (c : case) : bool :=
                (map (fun r => (sr_id r, sr_tls12 r)) (t_suites utls_table))
       && list_eqb N.eqb tls13 (t_tls13 utls_table)
   | CConsts vals => list_eqb N.eqb vals model_consts
-  | CRemove words s wb out =>
-      match run_ok (removeRandomCiphers rne s (fw_of_bits wb)) (expand words) with
+  | CRemove st s wb out =>
+      match run_ok (removeRandomCiphers rne s (fw_of_bits (hd 0 (words_of 1 wb)))) st with
       | Some l => list_eqb N.eqb l out
       | None => false
       end
   | CRC4 s out => list_eqb N.eqb (removeRC4Ciphers s) out
-  | CShuffled words out =>
-      match run_ok (shuffledCiphers fuel utls_table) (expand words) with
+  | CShuffled st out =>
+      match run_ok (shuffledCiphers fuel utls_table) st with
       | Some l => list_eqb N.eqb l out
       | None => false
       end
